@@ -138,6 +138,12 @@ func (r *Rig) Install(checkpoints []Checkpoint) {
 		n := r.dialable[host]
 		refused := r.refuse[host]
 		r.mu.Unlock()
+		if f := os.Getenv("VERIF_DIAL_LOG"); f != "" {
+			if fh, err := os.OpenFile(f, os.O_APPEND|os.O_CREATE|os.O_WRONLY, 0o644); err == nil {
+				fmt.Fprintf(fh, "%s dial %s known=%v refused=%v\n", time.Now().Format("15:04:05.000"), addr, n != nil, refused)
+				fh.Close()
+			}
+		}
 		if n == nil || refused {
 			return nil, fmt.Errorf("verif: connection refused (%s)", addr)
 		}
